@@ -16,7 +16,7 @@ import (
 // ---------------------------------------------------------------------------------------
 
 func structRoot(kind string, m map[string]VD) RootD {
-	return RootD{Kind: kind, Map: m, Plain: "P", Tagged: 7, Hidden: "H", List: []int{4, 5}, SubA: "a", Short: "short-id", Long: "LONG-ID"}
+	return RootD{Kind: kind, Map: m, Plain: "P", Tagged: 7, Hidden: "H", List: []int{4, 5}, SubA: "a", Short: "short-id", Long: "LONG-ID", Token: "t0k3n", Dash: "dash-value"}
 }
 
 // enumRoots: nil, map, struct, pointer to struct, struct whose field is shadowed by the root map,
@@ -72,6 +72,18 @@ func alphabet(pos int) []Op {
 		{K: "swap"},
 		{K: "foreach", N: "x", I: 1},
 		{K: "get", N: "x"},
+	}
+}
+
+// preludeAlphabet: the ops that matter for scope-map identity.
+func preludeAlphabet(pos int) []Op {
+	sv := vStr(fmt.Sprintf("p%d", pos))
+	return []Op{
+		{K: "pushnil"},
+		{K: "set", N: "x", V: &sv},
+		{K: "pop"},
+		{K: "copyuse"},
+		{K: "swap"},
 	}
 }
 
@@ -655,6 +667,9 @@ func genSeq(t *rapid.T, rec *ev.Rec, known *kf.File) SeqCase {
 		}
 	}
 	c := SeqCase{Root: root}
+	if rapid.Bool().Draw(t, "hasPrelude") {
+		c.Prelude = rapid.IntRange(1, 2).Draw(t, "prelude")
+	}
 	if known.Open(kfGoName) && (root.Kind == "struct" || root.Kind == "ptr") {
 		c.EnvSkip = []string{"Tagged", "Sub"}
 		rec.Excluded(kfGoName)
